@@ -318,9 +318,13 @@ struct sig_machine
   std::size_t obs_count{0};
   std::vector<int> obs_calls;
 
-  static sig_int *make_int()
+  // every signal gets a combiner of its own (a * 3 + b + id): the combiner is part of the signal's
+  // state, a move construction / move assignment hands it over together with the connections
+  std::array<int, n_sigs> comb{};
+  int next_comb{1};
+  static sig_int *make_int(int id)
   {
-    return new sig_int(typename sig_int::combiner_function{[](int a, int b) { return a * 3 + b; }});
+    return new sig_int(typename sig_int::combiner_function{[id](int a, int b) { return a * 3 + b + id; }});
   }
   void remove(int k)
   {
@@ -409,6 +413,7 @@ struct sig_machine
       sigs[d] = std::make_unique<sig_int>(std::move(*sigs[s]));
       vsigs[d] = std::make_unique<sig_void>(std::move(*vsigs[s]));
       model[d] = model[s];
+      comb[d] = comb[s];
       model[s].clear();
       // Reading: a moved-from signal has no combiner any more; it is destroyed right away and never called
       sigs[s].reset();
@@ -429,6 +434,7 @@ struct sig_machine
       *sigs[d] = std::move(*sigs[s]);
       *vsigs[d] = std::move(*vsigs[s]);
       model[d] = model[s];
+      comb[d] = comb[s];
       model[s].clear();
       sigs[s].reset();
       vsigs[s].reset();
@@ -446,7 +452,8 @@ struct sig_machine
     case 5:
     {
       if (free_s.empty()) break;
-      sigs[free_s[0]].reset(make_int());
+      comb[free_s[0]] = next_comb++;
+      sigs[free_s[0]].reset(make_int(comb[free_s[0]]));
       vsigs[free_s[0]] = std::make_unique<sig_void>();
       model[free_s[0]].clear();
       break;
@@ -461,7 +468,7 @@ struct sig_machine
       int const got = (*sigs[s])(typename sig_int::initial_value{init}, arg);
       (*vsigs[s])();
       int expect = init;
-      for (int k : model[s]) expect = expect * 3 + (arg * 7 + k);
+      for (int k : model[s]) expect = expect * 3 + (arg * 7 + k) + comb[s];
       if (dropped_after) called_after = true;
       if (calls != model[s] || vcalls != model[s])
       {
@@ -491,9 +498,11 @@ void sig_case_t(Ints const &c)
   Choices ch(c);
   std::size_t const nframes = c.size() / 4;
   auto m = std::make_unique<sig_machine<U>>();
-  m->sigs[0].reset(sig_machine<U>::make_int());
+  m->comb[0] = m->next_comb++;
+  m->sigs[0].reset(sig_machine<U>::make_int(m->comb[0]));
   m->vsigs[0] = std::make_unique<typename sig_machine<U>::sig_void>();
-  m->sigs[1].reset(sig_machine<U>::make_int());
+  m->comb[1] = m->next_comb++;
+  m->sigs[1].reset(sig_machine<U>::make_int(m->comb[1]));
   m->vsigs[1] = std::make_unique<typename sig_machine<U>::sig_void>();
   // pre-populate: signal 0 has connections 0 1 2, signal 1 has 3 4
   for (u64 k = 0; k < 5; ++k) m->step(0, k < 3 ? 0 : 1, 0);
